@@ -16,14 +16,17 @@
       COpen       db_manager.go GetUserDB + initUserDB (10 CREATE TABLE, 16 CREATE
                   INDEX, all IF NOT EXISTS, each autocommit) + sqlite.go
                   createDefaultMailboxes (SELECT COUNT; only if the table is
-                  empty: ONE transaction with the 5 INSERTs).  It is the first
+                  empty: on one dedicated connection BEGIN IMMEDIATE, SELECT COUNT
+                  again under the write lock, the 5 INSERTs, COMMIT — raven
+                  c479b34; sequentially the second count is the first one, and a
+                  crash inside the transaction leaves nothing of it).  It is the first
                   use of the store in a process: a LOGIN, or the GetUserDB at the
                   head of the first delivery to that user.
       CDeliver    delivery/storage/storage.go DeliverMessage after GetUserDB:
                   get-or-create mailbox, parser.StoreMessagePerUserWithSharedDBAndS3
                   (INSERT messages; n x INSERT message_headers; INSERT addresses;
                   per part [blob in shared.db] INSERT message_parts),
-                  db.AddMessageToMailboxPerUser (SELECT uid_next; UPDATE uid_next;
+                  db.AddMessageToMailboxPerUser (UPDATE uid_next ... RETURNING;
                   INSERT message_mailbox), RecordDeliveryPerUser
       CAppend     server/message/message.go HandleAppendWithReader (same, no delivery row)
       CBase o     the operations of Model/Ops.v that do not store a message:
@@ -92,13 +95,14 @@ Inductive mstep :=
 | MCreateFile                                   (* sql.Open + PRAGMA foreign_keys: an empty file appears *)
 | MSchema (i : nat)                             (* the i-th (0-based) CREATE ... IF NOT EXISTS *)
 | MInsMailbox (name : str) (t : Z)              (* INSERT INTO mailboxes *)
-| MTxDefaults (t1 t2 t3 t4 t5 : Z)              (* BEGIN; 5 x INSERT INTO mailboxes; COMMIT — only issued when the table is empty *)
+| MTxDefaults (t1 t2 t3 t4 t5 : Z)              (* BEGIN IMMEDIATE; SELECT COUNT again; 5 x INSERT INTO mailboxes; COMMIT
+                                                   (raven c479b34) — only issued when the table looked empty *)
 | MInsMessage (want : shape)                    (* INSERT INTO messages *)
 | MInsHeader (msg : Z)                          (* INSERT INTO message_headers *)
 | MInsAddress (msg : Z)                         (* INSERT INTO addresses *)
 | MBlob                                         (* shared.db: INSERT INTO blobs / UPDATE blobs SET reference_count *)
 | MInsPart (msg : Z)                            (* INSERT INTO message_parts *)
-| MBump (mb : Z)                                (* UPDATE mailboxes SET uid_next = uid_next + 1 *)
+| MBump (mb : Z)                                (* UPDATE mailboxes SET uid_next = uid_next + 1 ... RETURNING uid_next - 1 *)
 | MInsLink (msg mb uid : Z) (flags : list str)  (* INSERT INTO message_mailbox *)
 | MInsDelivery                                  (* INSERT INTO deliveries *)
 | MTxUidCopy (sel dest : Z) (uids : list Z) (next : Z)   (* BEGIN; INSERT message_mailbox *; COMMIT *)
@@ -202,11 +206,13 @@ Definition msg_steps (id : Z) (sh : shape) : list mstep :=
   MInsMessage sh :: repeat (MInsHeader id) (sh_hdr sh) ++ repeat (MInsAddress id) (sh_adr sh)
   ++ flat_map (fun b : bool => (if b then [MBlob] else []) ++ [MInsPart id]) (sh_parts sh).
 
-(** AddMessageToMailboxPerUser: "SELECT uid_next WHERE id = ?" (no row: error,
-    nothing written), UPDATE uid_next, INSERT message_mailbox *)
+(** AddMessageToMailboxPerUser (raven 807484f): ONE statement
+    "UPDATE mailboxes SET uid_next = uid_next + 1 WHERE id = ? RETURNING uid_next - 1"
+    hands out the UID and advances the counter (no row: the statement is issued,
+    changes nothing, and the caller returns the error), then INSERT message_mailbox *)
 Definition add_steps (s : store) (msg mb : Z) (fl : list str) : list mstep :=
   match find_id s mb with
-  | None => []
+  | None => [MBump mb]
   | Some m => [MBump mb; MInsLink msg mb (mb_next m) fl]
   end.
 (** does that INSERT succeed (UNIQUE(mailbox_id, uid))? *)
@@ -486,7 +492,7 @@ Definition labels (d : dstore) (st : mstep) : list str :=
   | MCreateFile => []
   | MSchema i => [nth i SCHEMA_OBJS []]
   | MInsMailbox _ _ => [S_ "I mailboxes"]
-  | MTxDefaults _ _ _ _ _ => L_BEGIN :: repeat (S_ "I mailboxes") 5 ++ [L_COMMIT]
+  | MTxDefaults _ _ _ _ _ => S_ "BEGIN IMMEDIATE" :: repeat (S_ "I mailboxes") 5 ++ [L_COMMIT]
   | MInsMessage _ => [S_ "I messages"]
   | MInsHeader _ => [S_ "I message_headers"]
   | MInsAddress _ => [S_ "I addresses"]
